@@ -75,11 +75,11 @@ def _beh_class(beh):
 
 
 def execute_worker(case):
-    from engines import targets_c12, workerloop
+    from engines import targets_c03, targets_c12, workerloop
     tasks = case['tasks']
     synack = case['synack']
     quota = case['quota']
-    payload = [(t['job'], t['i'], targets_c12.task, (k, t['beh']), {})
+    payload = [(t['job'], t['i'], targets_c03.task, (k, t['beh']), {})
                for k, t in enumerate(tasks)]
     answers = [bool(t['ack']) for t in tasks] if synack else None
     try:
@@ -125,6 +125,11 @@ def execute_worker(case):
             return bad('C03/ack-time', 'task %d: accept time %r outside [%r, %r] or '
                        'decreasing' % (k, a.t, last_t, res.t_end))
         last_t = a.t
+        started = [w[2] for w in res.witness
+                   if isinstance(w, tuple) and w[:2] == ('start', k)]
+        if started and a.t > started[0] + 1e-4:
+            return bad('C03/ran-before-accept', 'task %d started at %.6f, its ACK '
+                       'carries accept time %.6f' % (k, started[0], a.t))
         if a.fd != res.synqW_fd:
             return bad('C03/ack-fd', 'ACK fd %r, worker synq fd %r' % (
                 a.fd, res.synqW_fd))
